@@ -222,6 +222,23 @@ def main(spec):
         finally:
             sched.finish(i)
 
+    # Inode numbers are an input the model does not have: ext4 hands the number of a directory that was just removed to
+    # the next one created, and shutil.rmtree's lstat/open/fstat `samestat` check then cannot tell them apart. Keep every
+    # removed directory's inode allocated for the rest of the run (an O_PATH handle taken at the `os.rmdir` audit event),
+    # so that a re-created directory always is a different inode — as in the model, which never reuses a number.
+    keep = []
+
+    def audit(event, args):
+        if event == "os.rmdir":
+            try:
+                path, dir_fd = args[0], args[1] if len(args) > 1 else None
+                full = path if dir_fd is None else None
+                if full is None or str(full).startswith(cache):
+                    keep.append(os.open(path, os.O_PATH | os.O_DIRECTORY | os.O_NOFOLLOW, dir_fd=dir_fd))
+            except OSError:
+                pass
+
+    sys.addaudithook(audit)
     mon = sys.monitoring
     tool = mon.DEBUGGER_ID
     mon.use_tool_id(tool, "c11-detsched")
